@@ -53,6 +53,8 @@ def helper_calls(func):
 
 
 def run(repo, rep, tier):
+    from .c12 import namespace_validated_first
+    namespace_validated_first(repo, rep, 'C13.R8', lambda n: 'Associator' in n or 'Reference' in n)
     r1 = rep.rule('C13.R1', 'Names and full operations share the selection')
     r2 = rep.rule('C13.R2', 'association filters compared '
                   'case-insensitively')
